@@ -33,6 +33,8 @@ Definition history := list call.
 (* monomorphic constructors for the generated case files (terms without
    implicit arguments elaborate much faster) *)
 Definition kc (cl : N) (o : op) (inv : N) (r : res) (ret : N) : call := mkCall cl o inv (Some (r, ret)).
+(* a call that ended with a transport error: no result is claimed *)
+Definition kp (cl : N) (o : op) (inv : N) : call := mkCall cl o inv None.
 Definition pz (t : bytes) (z : Z) : bytes * Z := (t, z).
 Definition pd (p : bytes) (s : f64) : dir := (p, s).
 
